@@ -58,38 +58,7 @@ def narrowing_sites():
     return sites
 
 
-def short_dyadic(v):
-    """exactly representable 'small' constant: an integer multiple of 2^-12 below 2^28 (2, 0.5, 5.0, D/2, ...)"""
-    import math
-    return math.isfinite(v) and abs(v) < 2.0 ** 28 and (v * 4096.0) == math.floor(v * 4096.0)
-
-
-def foreign_widenings(t, s):
-    """values passed to from_f64 by the generic code that do not come from the table, the settings or the Gamma draw
-    ('computed ... from the user's inputs and from f64 constants of the table')"""
-    import math
-    tb = s["table"]
-    T = set()
-    for e in tb["entries"]:
-        T.add(b2f(e[2])); T.add(b2f(e[3]))
-    for key in ("dod", "cached"):
-        if key in s["built"]:
-            T.add(b2f(s["built"][key]))
-    if t.get("lambda") is not None:
-        T.add(b2f(t["lambda"]))
-    if "tol" in s["req"]:
-        T.add(b2f(s["req"]["tol"]))
-    bad = []
-    for b in t.get("widened_values", []):
-        v = b2f(b)
-        if v in T or short_dyadic(v) or not math.isfinite(v):
-            continue
-        # short number + table constant (e.g. D/2 * L + dod)
-        if any(math.isfinite(c) and short_dyadic(round((v - c) * 4096.0) / 4096.0) and abs((v - c) - round((v - c) * 4096.0) / 4096.0) <= 8 * abs(v) * 2.0 ** -52
-               for c in T):
-            continue
-        bad.append(v)
-    return bad
+from ..sample_checks import short_dyadic, foreign_widenings
 
 
 def ddf(p):
